@@ -45,13 +45,29 @@ func VerifC16Env() {
 	} else {
 		f2 = "B=line\n" + f2
 	}
-	vrtFile(w+"/one.env", f1)
+	// how the two files of service s are written: distinct names, or names that only differ in their leading dots,
+	// slashes and directories
+	layout := vrtChoice("layout", 3)
+	name1 := []string{"one.env", "../.env", "../conf/a.env"}[layout]
+	name2 := []string{"two.env", ".env", "./conf/a.env"}[layout]
+	abs := func(n string) string {
+		switch n {
+		case "../.env":
+			return vrtRoot() + "/.env"
+		case "../conf/a.env":
+			return vrtRoot() + "/conf/a.env"
+		case "./conf/a.env":
+			return w + "/conf/a.env"
+		}
+		return w + "/" + n
+	}
+	vrtFile(abs(name1), f1)
 	vrtFile(w+"/alt.env", "A=alt\n")
 	present2 := !in2 && vrtChoice("file2Present", 2) == 0
 	present2 = !present2
 	required2 := present2 || vrtChoice("file2Required", 2) == 1
 	if present2 {
-		vrtFile(w+"/two.env", f2)
+		vrtFile(abs(name2), f2)
 	}
 	var envAttr any
 	switch mode {
@@ -64,7 +80,7 @@ func VerifC16Env() {
 	case 2:
 		envAttr = []any{"K"}
 	}
-	second := map[string]any{"path": "two.env", "required": required2}
+	second := map[string]any{"path": name2, "required": required2}
 	if !present2 && vrtChoice("file2Format", 2) == 1 {
 		// a declared format does not make a missing file less missing
 		second["format"] = "raw"
@@ -79,7 +95,7 @@ func VerifC16Env() {
 		}
 		return s
 	}
-	doc := map[string]any{"services": map[string]any{"s": mk("one.env"), "t": mk("alt.env")}}
+	doc := map[string]any{"services": map[string]any{"s": mk(name1), "t": mk("alt.env")}}
 	discard := vrtParam("DISCARD", 0) == 1
 	p, err := tcLoadProject(env, func(o *Options) {
 		if discard {
